@@ -322,6 +322,16 @@ func runRadius(o *Out, r *rand.Rand, thorough bool, _ []string) {
 			}
 			// processPong first adds the responder to the table (if it fits), so membership is observed after the call
 			o.Case(fmt.Sprintf("revent kind=%s type=%d radius=%s malformed=%d member=%s", kind, typ, hex.EncodeToString(rad), b2i(malformed), membership()), fmt.Sprintf("%s cache=%s", res, cs))
+			if s%12 == 9 && e == 0 && member != "none" {
+				// our own liveness ping to the peer goes unanswered (it is silent): a missed check says nothing about its radius
+				_, perr := nd.p.VerifPing(peer)
+				cached, found := nd.p.VerifRadiusCacheGet(peer.ID())
+				cs := "none"
+				if found {
+					cs = hex.EncodeToString(cached)
+				}
+				o.Case(fmt.Sprintf("rpingfail member=%s", membership()), fmt.Sprintf("%s cache=%s", errStr(perr), cs))
+			}
 		}
 		// the handler's own (asynchronous) processing: one ping through handlePing, then poll the cache
 		if member != "none" && r.Intn(4) == 0 {
